@@ -30,6 +30,25 @@ func GenC08(seed uint64, i int) *world.Case {
 			last = "r2"
 		}
 	}
+	if g%3 == 0 {
+		// Fan-out shapes: one slice (a source, or the Result of an earlier
+		// invocation) consumed directly and through several different shuffles
+		// in the same invocation.
+		v := g / 3
+		if v%2 == 0 {
+			script = []world.Step{{Op: "run", ID: "r1", Func: "prog0", Spec: gen.FanOut(gr, nil, "a", v/2), MustSucceed: true}}
+			last = "r1"
+		} else {
+			base := gen.KVProgram(gr, "a")
+			bts, _ := base.Types()
+			bt := bts[base.Root()]
+			script = []world.Step{
+				{Op: "run", ID: "r1", Func: "prog0", Spec: base, MustSucceed: true},
+				{Op: "run", ID: "r2", Func: "prog1", Spec: gen.FanOut(gr, &bt, "b", v/2), Args: []string{"r1"}, MustSucceed: true},
+			}
+			last = "r2"
+		}
+	}
 	script = append(script, world.Step{Op: "scan", Of: last, MustSucceed: true})
 	s := seedFor(seed, "C08", i)
 	r := gen.New(s)
